@@ -13,8 +13,9 @@ CONSTANTS Kinds,      \* subset of {"logistic", "linear", "shared"}
           Forms,      \* subset of {"dict", "index"}
           DupOK,      \* TRUE (intended): a repeated <<id, age>> in an index request comes back once per occurrence
           XiSets      \* set of sequences of integer log-accelerations (for the gauge part)
-VARIABLES kind, req, form, xis, term, rows
-vars == <<kind, req, form, xis, term, rows>>
+VARIABLES kind, req, form, xis, term, rows,
+          msq, dir    \* (D) terms, per feature, of the squared metric and of the direction of progression (orthogonality of space shifts)
+vars == <<kind, req, form, xis, term, rows, msq, dir>>
 
 V(n) == <<"var", n>>
 Num(p, q) == <<"num", p, q>>
@@ -36,6 +37,17 @@ GD == Mul(V("g"), Exp(Neg(V("delta"))))                                   \* g e
 SharedF == Sig(Sub(Add(Add(Mul(Div(Sq(Add(GD, Num(1, 1))), GD), V("w")), Rt), V("delta")), Logt(V("g"))))
 TermOf(k) == CASE k = "logistic" -> LogisticF [] k = "linear" -> LinearF [] k = "shared" -> SharedF
 
+\* (D) the metric in which space shifts are orthogonal to the direction of progression, and that direction, per feature:
+\*   logistic: G = ((g+1)^2/g)^2, direction v0;  linear: G = 1, direction v0;
+\*   shared speed: gamma = 1/(1 + g exp(-delta)), G = 1/(gamma (1-gamma))^2, direction exp(-delta)/(1 + g exp(-delta))^2
+\* C10: for every row a of the mixing matrix  sum_f a_f G_f d_f = 0
+One == Num(1, 1)
+Gamma0 == Div(One, Add(One, GD))
+MetricSqOf(k) == CASE k = "logistic" -> Sq(Div(Sq(Add(V("g"), One)), V("g")))
+                   [] k = "linear" -> One
+                   [] k = "shared" -> Div(One, Sq(Mul(Gamma0, Sub(One, Gamma0))))
+DirOf(k) == CASE k = "shared" -> Div(Exp(Neg(V("delta"))), Sq(Add(One, GD))) [] OTHER -> V("v0")
+
 \* (B) layout: rows returned for a request
 Ids(r) == {r[i][1] : i \in 1..Len(r)}
 RECURSIVE FirstSeen(_, _)
@@ -54,7 +66,7 @@ IndexRows(r) == IF DupOK THEN r ELSE IndexRowsAsBuilt(r, r)     \* as built: the
 Rows(r, f) == IF f = "dict" THEN DictRows(r) ELSE IndexRows(r)
 
 Init == /\ kind \in Kinds /\ req \in Requests /\ form \in Forms /\ xis \in XiSets
-        /\ term = TermOf(kind) /\ rows = Rows(req, form)
+        /\ term = TermOf(kind) /\ rows = Rows(req, form) /\ msq = MetricSqOf(kind) /\ dir = DirOf(kind)
 Next == UNCHANGED vars
 Spec == Init /\ [][Next]_vars
 
